@@ -336,6 +336,42 @@ Proof.
     exfalso. apply (N e); auto.
 Qed.
 
+(* ---------- several processes starting at the same moment ----------
+   repoIsAvailable itself is two steps: read the lock file and decide, then (stale or empty) remove it; the
+   temporary file of Create touches nothing shared, so Create ; Write is one step here. A member whose open is
+   refused, or whose Remove finds the file already gone, exits. *)
+Inductive bout := BGo | BRefused (q : nat) | BRemoveErr.
+Record bm := mkbm { b_id : nat; b_pc : nat; b_out : bout }.   (* pc 0: read; 1: remove; 2: write; 3: holds; 4: exited with b_out *)
+Definition badvance (s : st) (m : bm) : st * bm :=
+  let id := b_id m in
+  match b_pc m with
+  | 0 => match lockf s with
+         | None => (s, mkbm id 2 BGo)
+         | Some (LPid q) => if mem q (dead s) then (s, mkbm id 1 BGo) else (fst (kill1 s id), mkbm id 4 (BRefused q))
+         | Some LTorn => (s, mkbm id 1 BGo)
+         end
+  | 1 => match lockf s with
+         | None => (fst (kill1 s id), mkbm id 4 BRemoveErr)       (* somebody else removed it in between *)
+         | Some _ => (unlink s, mkbm id 2 BGo)                     (* removes whatever is there now *)
+         end
+  | 2 => (mkst (Some (LPid id)) (dead s) (id :: holders s) (ready s) (created s), mkbm id 3 BGo)
+  | _ => (s, m)
+  end.
+Definition badv3 (s : st) (p : nat) : st * bm :=
+  let '(s1, m1) := badvance s (mkbm p 0 BGo) in let '(s2, m2) := badvance s1 m1 in badvance s2 m2.
+
+(* a member running alone does exactly the atomic open (and is gone if refused) *)
+Lemma badv3_alone s p : ready s = [] -> created s = [] ->
+  match open_atomic s p with
+  | (s', Granted) => fst (badv3 s p) = s' /\ b_pc (snd (badv3 s p)) = 3
+  | (s', Refused q) => fst (badv3 s p) = fst (kill1 s' p) /\ b_out (snd (badv3 s p)) = BRefused q /\ b_pc (snd (badv3 s p)) = 4
+  | _ => True
+  end.
+Proof.
+  intros R C. rewrite (open_atomic_cases s p R C). unfold badv3, granted. destruct s as [l d hs r c]. cbn in R, C. subst r c.
+  destruct l as [[q|]|]; cbn; [destruct (mem q d) eqn:D; cbn; rewrite ?D; cbn| |]; auto.
+Qed.
+
 (* ---------- the command wrapper ---------- *)
 Inductive family := FBackend      (* PreRunE LoadBackend, RunE CloseBackend(...) *)
                   | FEnsureUser   (* PreRunE LoadBackendEnsureUser, RunE CloseBackend(...) *)
